@@ -62,7 +62,7 @@ func init() {
 		Rule: "case = (mapping kind x alpha in [1e-6,0.99] x index-offset regime, store in {dense,sparse,paginated}, sign pattern, n in [1,2000] values drawn from bin edges +-k ulps, binade boundaries, range ends, sub-minimum magnitudes, duplicates, clusters) added one at a time; " +
 			"queries = 0, 1, every k/(n-1) and its float neighbours (all k for n<=64, else 64 sampled), random q, single and batch; oracle = answer within (alpha+64u) of the order statistic at floor or ceil of the exact q*(n-1) (big.Rat), q=0/1 in the bin of the true extreme. " +
 			"Non-trivial = n>=3, >=1 value within 8 ulps of a bin edge or at a range end, >=1 q at an integer rank; distinct = hash of (mapping, store, pattern, values).",
-		Cases:     core.Scale(12000, 400000),
+		Cases:     core.Scale(60000, 1500000),
 		Mandatory: []string{"oracle.quantile_checks", "query.at_integer_rank", "value.edge", "value.end", "value.zero_bucket", "oracle.extreme_bin_checks"},
 		Assumptions: []string{
 			"floating-point slack 64*u(v) (DESIGN.md §3.6): defects smaller than ~1e-11 relative are invisible",
@@ -76,7 +76,7 @@ func init() {
 		Rule: "case = one input (zeros, both signs, duplicates, edge values) fed to a single sketch and, partitioned at random into 1-8 parts (some empty or cleared after use), to sketches of independently chosen non-collapsing store kinds sharing an equal mapping (same object, rebuilt from gamma/offset, or decoded); " +
 			"parts merged along a random binary tree / left-deep / right-deep order by MergeWith or DecodeAndMergeWith(Encode(part)); oracle = bitwise equality of the full observation (bins, zero weight, count, extremes, quantile grid) with the single sketch, argument snapshot unchanged by each merge, empty merge is a no-op. " +
 			"Non-trivial = >=2 non-empty parts of different store kinds and >=1 zero value; distinct = hash of (mapping, values, partition, tree).",
-		Cases:     core.Scale(8000, 250000),
+		Cases:     core.Scale(60000, 1500000),
 		Mandatory: []string{"oracle.merge_equalities", "oracle.argument_unchanged", "merge.empty_argument", "merge.via_decode", "merge.cross_kind"},
 		Assumptions: []string{
 			"unit weights: all sums exact, so bitwise equality is legitimate",
